@@ -68,7 +68,7 @@ def eval_fun(spec, k):
 
 def gen_sel(rng, n, tags, names=None, allow_bool=True):
     k = rng.random()
-    if allow_bool and k < 0.08:
+    if allow_bool and k < 0.03:
         return rng.choice([True, False])
     if names is not None:
         return rng.sample(names, rng.randint(1, min(2, len(names))))
@@ -88,7 +88,8 @@ def gen_case(rng, profile):
     unit = rng.random() < (0.6 if profile != "C10" else 0.7)
     x0 = [rnd(rng, -2, 2) for _ in range(n)]
     # where the solution is: inside the limits, outside, or far away
-    where = rng.choice(["inside", "inside", "outside", "far"] if profile != "C10" else ["inside", "outside", "outside", "far"])
+    where = rng.choice({"C09": ["inside", "inside", "inside", "outside", "far"], "C10": ["inside", "outside", "outside", "far"],
+                        "C15": ["inside", "inside", "outside", "far"]}[profile])
     dist = {"inside": 0.6, "outside": 1.5, "far": 30.0}[where]
     kstar = [x0[j] + rnd(rng, -dist, dist) for j in range(n)]
     vary = []
@@ -134,7 +135,7 @@ def gen_case(rng, profile):
         if rng.random() < 0.3:
             d = -d
         fun["fault"] = [j, x0[j] + d * rnd(rng, 0.05, 0.8), d]
-    opts = {"n_steps_max": rng.choice([1, 2, 3, 5, 8, 12, 20, 25]), "assert_within_tol": rng.random() < 0.92,
+    opts = {"n_steps_max": rng.choice([1, 2, 3, 5, 8, 12, 20, 25] if profile != "C09" else [2, 5, 8, 12, 20, 25, 25]), "assert_within_tol": rng.random() < 0.92,
             "restore_if_fail": rng.random() < 0.8}
     names = [f"k{j}" for j in range(n)]
     vt = [v["tag"] for v in vary]
